@@ -110,6 +110,11 @@ func (n *RaftNode) Add(event []byte) (*balloon.Snapshot, error) {
 // As a result, it returns a bulk of shapshots, but previously it sends each snapshot
 // of the bulk to the agents channel, in order to be published/queried.
 func (n *RaftNode) AddBulk(bulk [][]byte) ([]*balloon.Snapshot, error) {
+	if len(bulk) == 0 {
+		// an empty bulk must never be replicated: applying it makes every
+		// replica panic, now and on every replay of the log
+		return nil, errors.New("empty bulk")
+	}
 	// Hash events
 	var eventHashBulk []hashing.Digest
 	for _, event := range bulk {
@@ -185,6 +190,10 @@ func (n *RaftNode) Apply(l *raft.Log) interface{} {
 		var eventDigests []hashing.Digest
 		if err := cmd.decode(&eventDigests); err != nil {
 			panic(fmt.Sprintf("Unable to decode command: %v", err))
+		}
+		if len(eventDigests) == 0 {
+			// nothing to insert (such an entry can only come from an old log)
+			return &fsmResponse{fmt.Errorf("empty bulk in log entry %d", l.Index), nil}
 		}
 		newState := &fsmState{l.Index, n.balloon.Version() + uint64(len(eventDigests)) - 1}
 		if n.state.shouldApply(newState) {
